@@ -34,9 +34,14 @@ Definition with_alloc (r : rd) (n : Z) : rd :=
   {| rest := rest r; sched := sched r; hashing := hashing r; hashed_rev := hashed_rev r;
      nread := nread r; allocs := n :: allocs r |}.
 
+(* how many bytes the next underlying Read is willing to return *)
+Definition chunk_want (need : nat) (sc : list nat) : nat :=
+  match sc with [] => need | c :: _ => Nat.min need (Nat.max 1 c) end.
+Arguments chunk_want : simpl never.
+
 (* one underlying Read of at most [need] bytes *)
 Definition take_chunk (need : nat) (r : rd) : bytes * rd :=
-  let want := match sched r with [] => need | c :: _ => Nat.min need (Nat.max 1 c) end in
+  let want := chunk_want need (sched r) in
   let chunk := firstn want (rest r) in
   (chunk,
    {| rest := skipn want (rest r); sched := tl (sched r); hashing := hashing r;
